@@ -438,10 +438,10 @@ func (g *gen) semanticEdit(t *Tgt) bool {
 			return true
 		})
 	}
-	if t.Dflt >= 0 && t.Free < 0 {
+	if t.Dflt >= 0 && g.p.form(t) == "default" {
 		opts = append(opts, func() bool { g.edit(Edit{Kind: "dflt", Target: t.Label(), Val: t.Dflt + 1 + r.below(300)}); return true })
 	}
-	if t.Free >= 0 {
+	if t.Free >= 0 && g.p.form(t) == "closure" {
 		opts = append(opts, func() bool { g.edit(Edit{Kind: "free", Target: t.Label(), Val: t.Free + 1 + r.below(300)}); return true })
 	}
 	return opts[r.below(len(opts))]()
